@@ -100,6 +100,15 @@ class ItemGetter:
         self.key = key
 
 
+class PartialV:
+    """functools.partial(f, *args, **kwargs)"""
+
+    def __init__(self, f, args, kwargs):
+        self.f = f
+        self.args = list(args)
+        self.kwargs = dict(kwargs)
+
+
 class CountIter:
     """itertools.count(start, step): unbounded, only consumable through zip()."""
 
@@ -234,7 +243,7 @@ class Interp:
     def truth(self, v, node) -> bool:
         if isinstance(v, Unknown):
             return self.decide(node, v)
-        if isinstance(v, (Sym, Obj, Closure, BoundMethod, Func, Class, LocalDef, Sentinel, ItemGetter)):
+        if isinstance(v, (Sym, Obj, Closure, BoundMethod, Func, Class, LocalDef, Sentinel, ItemGetter, PartialV)):
             return True
         if isinstance(v, CONCRETE):
             return bool(v)
@@ -252,11 +261,17 @@ class Interp:
             return Sym("module:" + r.name)
         if isinstance(r, tuple) and r[0] == "global":
             _, m, n = r
+            cache = self.root.__dict__.setdefault("_global_sentinels", {})
+            if (m.name, n) in cache:
+                return cache[(m.name, n)]
             sub = self.__class__.__new__(self.__class__)
             sub.__dict__.update(self.__dict__)
             sub.module = m
             sub.env = {}
-            return sub.eval(m.assigns[n])
+            v = sub.eval(m.assigns[n])
+            if isinstance(v, Sentinel):
+                cache[(m.name, n)] = v  # a module-level `object()` is one object
+            return v
         if isinstance(r, tuple) and r[0] == "external":
             return Sym("ext:" + r[1])
         if name in _BUILTIN_SYMS:
@@ -353,6 +368,23 @@ class Interp:
             step = kwargs.get("step", args[1] if len(args) > 1 else 1)
             if isinstance(step, int) and not isinstance(step, bool):
                 return CountIter(start, step)
+        if name == "itertools.repeat" and 1 <= len(args) <= 2 and not kwargs:
+            if len(args) == 2:
+                if isinstance(args[1], int) and not isinstance(args[1], bool):
+                    return [args[0]] * max(args[1], 0)
+            else:
+                return CountIter(args[0], None)
+        if name in ("itertools.chain", "itertools.chain.from_iterable") and not kwargs:
+            parts = list(args) if name == "itertools.chain" else (list(self.iterate(args[0], node)) if len(args) == 1 else None)
+            if parts is not None:
+                out = []
+                for part in parts:
+                    out += list(self.iterate(part, node))
+                return out
+        if name == "itertools.starmap" and len(args) == 2 and not kwargs:
+            return [self.apply(args[0], list(self.iterate(t, node)), {}, node) for t in self.iterate(args[1], node)]
+        if name == "functools.partial" and args:
+            return PartialV(args[0], args[1:], kwargs)
         if name in ("operator.itemgetter", "operator.attrgetter") and len(args) == 1 and not kwargs and isinstance(args[0], (int, str)):
             return ItemGetter(name.rsplit(".", 1)[1], args[0])
         # pure scalar mathematics on concrete representatives
@@ -948,6 +980,8 @@ class Interp:
             return self.call_closure(fv, args, node)
         if isinstance(fv, LocalDef):
             return self.call_localdef(fv, args, kwargs, node)
+        if isinstance(fv, PartialV):
+            return self.apply(fv.f, fv.args + list(args), {**fv.kwargs, **kwargs}, node)
         if isinstance(fv, ItemGetter) and len(args) == 1 and not kwargs:
             if fv.kind == "attrgetter":
                 return self.get_attr(args[0], fv.key, node)
@@ -1185,7 +1219,9 @@ class Interp:
                         col, cur = [], a.start
                         for i in range(n):
                             col.append(cur)
-                            cur = self.binop(ast.Add(), cur, a.step, node)
+                            if a.step is not None:
+                                cur = self.binop(ast.Add(), cur, a.step, node)
+                        a.start = cur  # consumed
                         cols.append(col)
                     else:
                         cols.append(list(a)[:n])
@@ -1219,6 +1255,31 @@ class Interp:
                 if isinstance(args[1], str):
                     args[0].attrs[args[1]] = args[2]
                 return None
+            if name in ("dict.items", "dict.keys", "dict.values") and len(args) == 1 and isinstance(args[0], dict) and not kwargs:
+                return _DictView(args[0], name.split(".")[1])
+            if name == "next" and 1 <= len(args) <= 2 and not kwargs and isinstance(args[0], CountIter):
+                it = args[0]
+                cur = it.start
+                if it.step is not None:
+                    it.start = self.binop(ast.Add(), cur, it.step, node)  # the iterator advances
+                return cur
+            if name == "next" and 1 <= len(args) <= 2 and not kwargs and isinstance(args[0], list):
+                # the argument is a generator expression / iter(...) evaluated eagerly: first element
+                if args[0]:
+                    return args[0][0]
+                if len(args) == 2:
+                    return args[1]
+                raise RaiseSignal("StopIteration", node)
+            if name == "iter" and len(args) == 1 and not kwargs:
+                return list(self.iterate(args[0], node))
+            if name == "map" and len(args) >= 2 and not kwargs:
+                cols = [list(self.iterate(a, node)) for a in args[1:]]
+                return [self.apply(args[0], list(t), {}, node) for t in zip(*cols)]
+            if name == "filter" and len(args) == 2 and not kwargs:
+                items = list(self.iterate(args[1], node))
+                if args[0] is None:
+                    return [x for x in items if self.truth(x, node)]
+                return [x for x in items if self.truth(self.apply(args[0], [x], {}, node), node)]
             if name == "dict.fromkeys" and 1 <= len(args) <= 2 and not kwargs:
                 keys = args[0]
                 if not isinstance(keys, (list, tuple, dict, set, frozenset, str)):
